@@ -21,6 +21,7 @@ type ProcSpec struct {
 	PadIn     int      // nop-like padding (cpy rX rX) before each i2rw
 	PadOut    int      // padding before each r2owa
 	DoubleIn  bool     // read the first input twice in a row (back-to-back i2rw)
+	InRegs    []int    // register that receives input j (default: register j); repeats allowed
 	Prog      []string // the assembled-from text (filled by Build)
 }
 
@@ -58,7 +59,11 @@ func (ps *ProcSpec) program() ([]string, []string) {
 	}
 	for j := 0; j < ps.NIn; j++ {
 		pad(ps.PadIn)
-		prog = append(prog, fmt.Sprintf("i2rw r%d i%d", j%(1<<ps.R), j))
+		reg := j % (1 << ps.R)
+		if j < len(ps.InRegs) {
+			reg = ps.InRegs[j] % (1 << ps.R)
+		}
+		prog = append(prog, fmt.Sprintf("i2rw r%d i%d", reg, j))
 		ops["i2rw"] = true
 		if j == 0 && ps.DoubleIn {
 			prog = append(prog, fmt.Sprintf("i2rw r%d i%d", (j+1)%(1<<ps.R), j))
@@ -144,6 +149,13 @@ func RandomNet(rng *rand.Rand, maxP int, pool []string) NetSpec {
 	var procOuts []string
 	for p := 0; p < np; p++ {
 		ps := ProcSpec{R: 2, NIn: 1 + rng.IntN(2), NOut: 1 + rng.IntN(2), PadIn: rng.IntN(3), PadOut: rng.IntN(3)}
+		if ps.NIn > 1 && rng.IntN(3) == 0 {
+			// inputs land in arbitrary registers, possibly the same one, with no padding in between
+			for j := 0; j < ps.NIn; j++ {
+				ps.InRegs = append(ps.InRegs, rng.IntN(2))
+			}
+			ps.PadIn = 0
+		}
 		ps.Body = randBody(rng, ps.R, pool, rng.IntN(4))
 		for j := 0; j < ps.NOut; j++ {
 			ps.OutRegs = append(ps.OutRegs, rng.IntN(1<<ps.R))
